@@ -20,7 +20,8 @@ RULE = ("format {qcow2, vmdk hosted, vmdk se-sparse, vhdx, vhd, vdi, hds v1/v2} 
         "format limit} x placement of tables and data {low, > 2^32 bytes, > 2^32 sectors, top of the field range} x "
         "allocation density {targets only, 64-unit window + 16 groups of several hundred units} x request {first unit, last "
         "unit, boundary crossing, unallocated}: full product where the format can express it. non-trivial = configuration "
-        "with a placement or virtual size beyond 2^32 bytes")
+        "with a placement or virtual size beyond 2^32 bytes. Plus: compressed grains whose deflate stream is 484..528 bytes "
+        "long (around a sector minus either marker size), with and without embedded LBA markers: bytes requested per grain read")
 ASSUMPTIONS = [
     "a reader may load whole tables eagerly, so the I/O bound uses the size of ALL mapping metadata in the image (M), not "
     "only the part on the lookup path; bound = 2*M + 4*(request + 2 buffers) + 64 KiB; on the large configurations the "
@@ -32,7 +33,7 @@ ASSUMPTIONS = [
 ALPHABET = "format x scale x placement x density x request"
 BOUND = {"quick": "all formats, 4 scales x 4 placements x 2 densities x 4 requests (where expressible), buffer 8192",
          "thorough": "same with buffers {512, 8192, 65536}"}
-EXPECT_OUTCOMES = ["qcow2", "vmdk-hosted", "vmdk-stream", "vmdk-sesparse", "vhdx", "vhd", "vdi", "hds2", "hds1"]
+EXPECT_OUTCOMES = ["qcow2", "qcow2-512", "vmdk-hosted", "vmdk-stream", "vmdk-sesparse", "vhdx", "vhd", "vdi", "hds2", "hds1"]
 MB = 1 << 20
 GROUPS = 16
 GROUP_UNITS = 400
@@ -41,6 +42,8 @@ FORMATS = {
     # unit bytes, scales (units), placements
     "qcow2": dict(unit=65536, scales={"small": 1 << 14, "4g": (1 << 16) + 77, "2t": (1 << 25) + 5, "limit": 1 << 30},
                   places=["low", "b32", "s32", "top"]),
+    # 512-byte clusters: 64 L2 entries per table, so a disk of 4 GiB + already needs more than 131072 L1 entries (1 MiB of L1)
+    "qcow2-512": dict(unit=512, scales={"4g": (1 << 23) + 77, "16g": (1 << 25) + 5}, places=["low", "b32"]),
     "vmdk-hosted": dict(unit=65536, scales={"small": 1 << 14, "4g": (1 << 16) + 77, "limit": (1 << 25) - 1},
                         places=["low", "b32", "top"]),
     "vmdk-stream": dict(unit=65536, scales={"small": 1 << 14, "4g": (1 << 16) + 77, "limit": (1 << 25) - 1},
@@ -65,10 +68,62 @@ def shards(tier):
             for scale in f["scales"]:
                 for place in f["places"]:
                     out.append({"buf": buf, "fmt": fmt, "scale": scale, "place": place})
+        for lba in (True, False):
+            out.append({"buf": buf, "fmt": "vmdk-stream", "tuned": True, "lba": lba})
     return out
 
 
+def _tuned(case, ctx):
+    """Compressed grains whose deflate stream is L bytes long, L around the sector size minus either marker length: the
+    bytes requested for reading one such grain are bounded by a few sectors + buffers, whatever L is."""
+    from dissect.hypervisor.disk.vmdk import VMDK
+
+    from mc.builders import vmdk as B
+
+    buf = bootstrap.bufsize()
+    L, lba = case["len"], case["lba"]
+    grain = 8
+    explicit = {}
+    for gi, seed in ((0, 11), (1, 12)):
+        b = B.tuned_grain(grain, L + gi, seed)
+        if b is not None:
+            explicit[gi] = b
+    ctx.executions += 1
+    ctx.model(case)
+    ctx.outcome("vmdk-stream")
+    if not explicit:
+        return
+    n = 300  # ~1.2 MiB of further grains behind the two tuned ones: a scan to the end of the file is 1000x the bound
+    states = [DATA if i in explicit else (B.CDATA if i < 2 else DATA) for i in range(n)]
+    slots = list(range(n))
+    img = B.build_hosted(states, slots, grain, 512, n * grain, footer=True, compressed=True, stride=9, explicit=explicit,
+                         embedded_lba=lba)
+    model = B.model(states, grain, n * grain, explicit=explicit)
+    fh = img.sparse(log=True)
+    with ctx.watch(case, 120):
+        v = VMDK(fh)
+        for gi in sorted(explicit):
+            ctx.transitions += 1
+            ctx.states += 1
+            ctx.nontrivial += 1
+            fh.reset_meter()
+            got = v.read_sectors(gi * grain, grain)
+            if got != model.content(gi * grain * 512, grain * 512):
+                ctx.violation(case, {"subject": "vmdk-stream.tuned.read", "kind": "mismatch", "lba": lba}, {"grain": gi, "deflate_len": L + gi})
+                return
+            cost, bound = fh.bytes_requested, 16 * 512 + 4 * buf + 4096
+            ctx.maxi("tuned_cost_over_bound_permille", int(1000 * cost / bound))
+            if cost > bound:
+                ctx.violation(case, {"subject": "vmdk-stream.io", "kind": "io-bound-exceeded", "request": "tuned-grain", "lba": lba},
+                              {"deflate_len": L + gi, "read_bytes": cost, "bound": bound, "reads": [list(r) for r in fh.reads[:6]]})
+                return
+
+
 def run_shard(shard, ctx):
+    if shard.get("tuned"):
+        for L in range(484, 528):
+            run_case({"tuned": True, "len": L, "lba": shard["lba"]}, ctx)
+        return
     # one case builds both the nearly empty and the densely allocated image of the configuration
     run_case({"fmt": shard["fmt"], "scale": shard["scale"], "place": shard["place"], "density": "dense"}, ctx)
 
@@ -112,6 +167,16 @@ def _build(fmt, total, place, placed):
     """placed: unit -> slot.  Returns (Image, model, opener, M-adjust)."""
     f = FORMATS[fmt]
     unit = f["unit"]
+    if fmt == "qcow2-512":
+        from dissect.hypervisor.disk.qcow2 import QCow2
+
+        from mc.builders import qcow2 as B
+
+        states, slots = _dense_lists(placed, total, "N", "U", cap=None, fmt=fmt)
+        tb, db = {"low": (None, None), "b32": ((4 << 30) + (2 << 20), (8 << 30) + (64 << 20))}[place]
+        img, _ = B.build(states, slots, 9, 3, total * unit, 0, total, table_base=tb, data_base=db)
+        model = B.model(states, 9, total * unit, 0, total)
+        return img, model, lambda fh: QCow2(fh)
     if fmt == "qcow2":
         from dissect.hypervisor.disk.qcow2 import QCow2
 
@@ -225,6 +290,8 @@ def _dense_lists(placed, total, data_tok, hole_tok, cap=None, fmt=None):
 
 
 def run_case(case, ctx):
+    if case.get("tuned"):
+        return _tuned(case, ctx)
     fmt, scale, place, density = case["fmt"], case["scale"], case["place"], case["density"]
     f = FORMATS[fmt]
     unit = f["unit"]
@@ -262,7 +329,8 @@ def run_case(case, ctx):
                 "first": (0, 4096),
                 "last": (max(0, size - 4096 - 100), 4096 + 100),
                 "cross": (targets["cross2"] * unit - 1536, 3072),
-                "hole": ((hole or 0) * unit + 512, min(4096, unit - 1024)) if hole is not None else None,
+                "hole": (((hole or 0) * unit + 512, min(4096, unit - 1024)) if unit > 2048 else ((hole or 0) * unit, 512))
+                if hole is not None else None,
                 "cross-big": (targets["cross2"] * unit - 40000, 80000),
             }
             for name, r in reqs.items():
